@@ -60,6 +60,10 @@ def cases(ctx):
                  "override": rng.choice([None, None, "lists", "gens", "mixed"]), "shuffle": rng.choice([False, False, True, 5]),
                  "batchsize": rng.choice([None, 1, 2, 3, 5]), "reload_crop": rng.random() < 0.5, "reap_reloaded": rng.random() < 0.5, "save_fails_first": rng.random() < 0.12, "rseed": rng.randint(0, 10 ** 9)}
             runs.append(r)
+        if i % 8 == 3:
+            # DEGENERATE: the last run of the history asks for NO samples (n = 0): it appends no row and evaluates nothing
+            runs[-1]["n"] = 0
+            runs[-1]["save_fails_first"] = False
         no_args = rng.random() < 0.08
         if no_args:
             for r in runs:
@@ -219,6 +223,9 @@ def run_case(ctx, case):
             os.utime(data_name, (1.7e9, 1.7e9))
             ctx.count("runs_on_a_table_whose_time_stamp_did_not_advance")
         n = run["n"]
+        sig = dict(sig, n_is_zero=str(n == 0))
+        if n == 0:
+            ctx.count("runs_asking_for_no_samples")
         override = None
         allowed = {a: list(POOLS[a]) for a in args}
         gens_used = {a: isinstance(s.default_combos[a], LoggingGen) for a in args}
